@@ -104,7 +104,9 @@ func TestVerifBounded_C15_Routing(t *testing.T) {
 }
 
 func TestVerifBounded_C15_StateEdges(t *testing.T) {
-	states := []PartitionState{PartitionPending, PartitionActive, PartitionInactive}
+	// every value of the state enumeration, including the two that are not states of a live partition (unknown, deleted):
+	// no edge to or from them is legal
+	states := []PartitionState{PartitionPending, PartitionActive, PartitionInactive, PartitionUnknown, PartitionDeleted}
 	legal := map[[2]PartitionState]bool{{PartitionPending, PartitionActive}: true, {PartitionPending, PartitionInactive}: true, {PartitionActive, PartitionInactive}: true, {PartitionInactive, PartitionActive}: true}
 	cases, fails := 0, 0
 	now := time.Now()
@@ -134,7 +136,7 @@ func TestVerifBounded_C15_StateEdges(t *testing.T) {
 			}
 		}
 	}
-	fmt.Printf("BOUNDED-CASES name=C15_StateEdges n=%d distinct=%d bound=all (from,to,locked) over {pending,active,inactive}\n", cases, cases)
+	fmt.Printf("BOUNDED-CASES name=C15_StateEdges n=%d distinct=%d bound=all (from,to,locked) over the five values of the state enumeration {pending,active,inactive,unknown,deleted}\n", cases, cases)
 	if fails > 0 {
 		t.Fatalf("%d mismatches", fails)
 	}
